@@ -202,7 +202,7 @@ class SGen(object):
         elif k < 0.68 and o.annotations:
             c = r.random()
             if c < 0.5:
-                self.emit(ind, '%s: %s = %s' % (r.choice(NAMES), r.choice(['int', self.name()]), self.expr()))
+                self.emit(ind, '%s: %s = %s' % (r.choice(NAMES), r.choice(['int', self.name(), '(%s := int)' % r.choice(NAMES)]), self.expr()))
             elif c < 0.8:
                 self.emit(ind, '%s: %s' % (r.choice(NAMES), r.choice(['int', self.name()])))
             else:
